@@ -350,6 +350,7 @@ func runC12(c *Ctx) {
 	}
 
 	c12Registration(c, allocating)
+	ruleDefaultNameFlagComputed(c, "C12.7")
 
 	// ---- names cached on InjectorParam come from the allocator only
 	nStores := 0
